@@ -1,6 +1,6 @@
 /-
   C07, segment level (continued): `intersect` on each edge and the specification of the inner
-  Cohen–Sutherland loop `segLoop`, in a form covering the closed and the open mode at once.
+  Cohen–Sutherland loop `segLoopU`, in a form covering the closed and the open mode at once.
 -/
 import OrbProofs.C07Seg
 
@@ -271,7 +271,7 @@ theorem Reg.inBox {S : Prop} {box : Bound α} {q : Pt α} (h : Reg S box q) : In
   · exact h.inBox
   · exact h.2
 
-/-- post-condition of `segLoop` started on `a b` with codes `cA cB` -/
+/-- post-condition of `segLoopU` started on `a b` with codes `cA cB` -/
 def SegPost (box : Bound α) (S : Prop) (a b : Pt α) (cA cB : Nat) : Seg α → Prop
   | .accept a' b' c => c = 0 ∧ InBox box a' ∧ InBox box b' ∧ OnSeg a b a' ∧ OnSeg a b b' ∧
       (cA = 0 → a' = a) ∧ (cB = 0 → b' = b) ∧ ∀ q, OnSeg a b q → Reg S box q → OnSeg a' b' q
@@ -281,13 +281,13 @@ def SegPost (box : Bound α) (S : Prop) (a b : Pt α) (cA cB : Nat) : Seg α →
 theorem segLoop_spec {box : Bound α} (hb : BoxOK box) (S : Prop) :
     ∀ (fuel : Nat) (a b : Pt α) (cA cB : Nat), W box cA a → W box cB b →
       (S → cA = bitCode box a ∧ cB = bitCode box b) → mu (cA ||| cB) < fuel →
-      SegPost box S a b cA cB (segLoop box fuel a b cA cB) := by
+      SegPost box S a b cA cB (segLoopU box fuel a b cA cB) := by
   intro fuel
   induction fuel with
   | zero => intro a b cA cB _ _ _ h; omega
   | succ n ih =>
     intro a b cA cB hWA hWB hS hfuel
-    rw [segLoop]
+    rw [segLoopU]
     split_ifs with h1 h2 h3
     · -- accept
       obtain ⟨hA0, hB0⟩ := bits_or_zero cA hWA.1 cB hWB.1 h1
@@ -318,7 +318,7 @@ theorem segLoop_spec {box : Bound α} (hb : BoxOK box) (S : Prop) :
       have hand : cA &&& cB = 0 := not_not.1 h2
       obtain ⟨T, hT0, hT1, hint, hmu, hdis⟩ := clipA hb hWA hWB h3 hand
       rw [hint]
-      show SegPost box S a b cA cB (segLoop box n (lerp a b T) b (bitCode box (lerp a b T)) cB)
+      show SegPost box S a b cA cB (segLoopU box n (lerp a b T) b (bitCode box (lerp a b T)) cB)
       have key := ih (lerp a b T) b (bitCode box (lerp a b T)) cB (W_bitCode hb _) hWB
         (fun s => ⟨rfl, (hS s).2⟩) (by omega)
       have hsplit : ∀ q, OnSeg a b q → InBox box q → OnSeg (lerp a b T) b q := by
@@ -328,7 +328,7 @@ theorem segLoop_spec {box : Bound α} (hb : BoxOK box) (S : Prop) :
           exact hdis t ht0 (not_le.1 hlt) hin
         have := onSeg_between a b hTt ht1
         rwa [lerp_one] at this
-      generalize segLoop box n (lerp a b T) b (bitCode box (lerp a b T)) cB = r at key ⊢
+      generalize segLoopU box n (lerp a b T) b (bitCode box (lerp a b T)) cB = r at key ⊢
       cases r with
       | accept a' b' c =>
         obtain ⟨hc, hia, hib, hoa, hob, _, hb', hcomp⟩ := key
@@ -345,7 +345,7 @@ theorem segLoop_spec {box : Bound α} (hb : BoxOK box) (S : Prop) :
         rintro rfl; apply h1; rw [hA0]; rfl
       obtain ⟨T, hT0, hT1, hint, hmu, hdisO, hdisC⟩ := clipB hb hWA hWB hB0 hand
       rw [hint]
-      show SegPost box S a b cA cB (segLoop box n a (lerp a b T) cA (bitCode box (lerp a b T)))
+      show SegPost box S a b cA cB (segLoopU box n a (lerp a b T) cA (bitCode box (lerp a b T)))
       have key := ih a (lerp a b T) cA (bitCode box (lerp a b T)) hWA (W_bitCode hb _)
         (fun s => ⟨(hS s).1, rfl⟩) (by omega)
       have hsplit : ∀ q, OnSeg a b q → Reg S box q → OnSeg a (lerp a b T) q := by
@@ -357,7 +357,7 @@ theorem segLoop_spec {box : Bound α} (hb : BoxOK box) (S : Prop) :
           · exact hdisC (hS hs).2 t (not_le.1 hlt) ht1 hreg
         have := onSeg_between a b ht0 hTt
         rwa [lerp_zero] at this
-      generalize segLoop box n a (lerp a b T) cA (bitCode box (lerp a b T)) = r at key ⊢
+      generalize segLoopU box n a (lerp a b T) cA (bitCode box (lerp a b T)) = r at key ⊢
       cases r with
       | accept a' b' c =>
         obtain ⟨hc, hia, hib, hoa, hob, ha', _, hcomp⟩ := key
@@ -370,11 +370,11 @@ theorem segLoop_spec {box : Bound α} (hb : BoxOK box) (S : Prop) :
 
 /-- an accepted segment started with codes sharing no bit -/
 theorem segLoop_accept_and {box : Bound α} {fuel : Nat} {a b a' b' : Pt α} {cA cB c : Nat}
-    (h : segLoop box fuel a b cA cB = .accept a' b' c) : cA &&& cB = 0 := by
+    (h : segLoopU box fuel a b cA cB = .accept a' b' c) : cA &&& cB = 0 := by
   cases fuel with
-  | zero => simp [segLoop] at h
+  | zero => simp [segLoopU] at h
   | succ n =>
-    rw [segLoop] at h
+    rw [segLoopU] at h
     split_ifs at h with h1 h2
     · have h0 := Nat.or_eq_zero_iff.1 h1
       rw [h0.1, h0.2]; rfl
@@ -426,14 +426,14 @@ theorem open_interior {box : Bound α} (hb : BoxOK box) {a b a' b' : Pt α}
 
 /-- closed mode, exact codes: the accepted segment is exactly the inside part -/
 theorem segLoop_closed {box : Bound α} (hb : BoxOK box) (a b : Pt α) :
-    (match segLoop box 8 a b (bitCode box a) (bitCode box b) with
+    (match segLoopU box 8 a b (bitCode box a) (bitCode box b) with
      | .accept a' b' _ => InBox box a' ∧ InBox box b' ∧ OnSeg a b a' ∧ OnSeg a b b' ∧
          ∀ q, OnSeg a b q → (InBox box q ↔ OnSeg a' b' q)
      | .reject => ∀ q, OnSeg a b q → ¬ InBox box q
      | .stuck => False) := by
   have key := segLoop_spec hb True 8 a b (bitCode box a) (bitCode box b) (W_bitCode hb a)
     (W_bitCode hb b) (fun _ => ⟨rfl, rfl⟩) (mu_lt_eight (bitCode_lt box a) (bitCode_lt box b))
-  generalize segLoop box 8 a b (bitCode box a) (bitCode box b) = r at key ⊢
+  generalize segLoopU box 8 a b (bitCode box a) (bitCode box b) = r at key ⊢
   cases r with
   | accept a' b' c =>
     obtain ⟨_, hia, hib, hoa, hob, _, _, hcomp⟩ := key
@@ -441,5 +441,104 @@ theorem segLoop_closed {box : Bound α} (hb : BoxOK box) (a b : Pt α) :
       ⟨fun hin => hcomp q hq (Or.inr ⟨trivial, hin⟩), fun hq' => inBox_of_onSeg hia hib hq'⟩⟩
   | reject => exact fun q hq hin => key.2 q hq (Or.inr ⟨trivial, hin⟩)
   | stuck => exact key
+
+/-! ### the rounding guards of the real loop change nothing over an ordered field -/
+
+/-- what holds while the far end `b` is still the unclipped vertex (open bound): its code is its exact
+    open code, and the start end is strictly within every edge line the far end lies on, unless its own
+    code marks that edge -/
+def FreshB (box : Bound α) (a b : Pt α) (cA cB : Nat) : Prop :=
+  cB = bitCodeOpen box b ∧
+    ∀ k, Edge k → cB &&& k ≠ 0 → exc box k b = 0 → cA &&& k = 0 → exc box k a < 0
+
+theorem freshB_start {box : Bound α} (hb : BoxOK box) (a b : Pt α) :
+    FreshB box a b (bitCodeOpen box a) (bitCodeOpen box b) := by
+  refine ⟨rfl, fun k hk _ _ hkA => ?_⟩
+  by_contra hge
+  exact (bitCodeOpen_bit hb a hk).2 (not_lt.1 hge) hkA
+
+/-- a clip of the start end keeps `FreshB` -/
+theorem freshB_clipA {box : Bound α} (hb : BoxOK box) {cA cB : Nat} {a b a' : Pt α} (hWA : W box cA a)
+    (hWB : W box cB b) (hF : FreshB box a b cA cB) (hne : cA ≠ 0) (hand : cA &&& cB = 0)
+    (hint : intersect box cA a b = some a') : FreshB box a' b (bitCode box a') cB := by
+  obtain ⟨hcb, hJ⟩ := hF
+  refine ⟨hcb, fun k hk hkB hzb _ => ?_⟩
+  obtain ⟨j, hfb⟩ := firstBit_exists hWA.1 hne
+  have hj := hfb.edge
+  have hbitB : cB &&& j = 0 := bits_disj cA hWA.1 cB hWB.1 hand j hj.mem hfb.bit
+  obtain ⟨T, hT0, hT1, hcross, hz, _⟩ :=
+    cross_startEnd box hj a b ((hWA.2 j hj).1 hfb.bit) ((hWB.2 j hj).2 hbitB)
+  rw [intersect_eq_cross box hfb, hcross] at hint
+  cases hint
+  -- the crossing point is not the far end: the far end is strictly within the edge `j`
+  have hT : T < 1 := by
+    rcases lt_or_eq_of_le hT1 with h | h
+    · exact h
+    · exfalso
+      rw [h, lerp_one] at hz
+      have := (bitCodeOpen_bit hb b hj).2 hz.ge
+      rw [← hcb] at this
+      exact this hbitB
+  have hand' : cB &&& cA = 0 := by rw [Nat.and_comm]; exact hand
+  have hkA : cA &&& k = 0 := bits_disj cB hWB.1 cA hWA.1 hand' k hk.mem hkB
+  have hneg := hJ k hk hkB hzb hkA
+  rw [exc_lerp, hzb, mul_zero, add_zero]
+  exact mul_neg_of_pos_of_neg (sub_pos.2 hT) hneg
+
+/-- open bound: a far end that is an unclipped vertex on the boundary is what `intersect` returns -/
+theorem intersect_boundary_end {box : Bound α} {cB : Nat} {a b : Pt α} (hWA : W box 0 a) (hWB : W box cB b)
+    (hF : FreshB box a b 0 cB) (hne : cB ≠ 0) (hbc : bitCode box b = 0) (hb : BoxOK box) :
+    intersect box cB a b = some b := by
+  obtain ⟨k, hfb⟩ := firstBit_exists hWB.1 hne
+  have hk := hfb.edge
+  have hin : InBox box b := W_zero_inBox (hbc ▸ W_bitCode hb b)
+  have hzb : exc box k b = 0 := le_antisymm ((inBox_iff.1 hin) k hk) ((hWB.2 k hk).1 hfb.bit)
+  have hneg : exc box k a < 0 := hF.2 k hk hfb.bit hzb (Nat.zero_and k)
+  obtain ⟨T, _, hT1, hcross, hz, _⟩ := cross_farEnd box hk a b hneg.le hzb.ge
+  rw [intersect_eq_cross box hfb, hcross]
+  rw [exc_lerp, hzb, mul_zero, add_zero] at hz
+  have hT : T = 1 := by
+    rcases mul_eq_zero.1 hz with h | h
+    · exact (sub_eq_zero.1 h).symm
+    · exact absurd h hneg.ne
+  rw [hT, lerp_one]
+
+/-- THE GUARDS CHANGE NOTHING over exact arithmetic: every `intersect` strictly lowers the number of
+    region-code bits (`clipA`, `clipB`), a code has at most two, so no end is clipped a third time and the
+    clamp branch is unreachable; and with the open bound a far end on the boundary is exactly what
+    `intersect` returns.  So the model's loop `segLoop` coincides with the loop without the guards,
+    `segLoopU`, about which this development reasons.  (`hopen`: with the open bound the two codes are
+    the open codes of the two ends, as `lineStep` passes them.) -/
+theorem segLoop_eq_segLoopU {box : Bound α} (hb : BoxOK box) (isOpen : Bool) {a b : Pt α} {cA cB : Nat}
+    (hWA : W box cA a) (hWB : W box cB b) (hA2 : bitCount cA ≤ 2) (hB2 : bitCount cB ≤ 2)
+    (hopen : isOpen = true → cA = bitCodeOpen box a ∧ cB = bitCodeOpen box b) (fuel : Nat) :
+    segLoop box isOpen fuel a b cA cB 0 0 = segLoopU box fuel a b cA cB := by
+  refine segLoop_eq_segLoopU_of box isOpen (fun a b cA cB => W box cA a ∧ W box cB b)
+    (fun a b cA cB => isOpen = true → FreshB box a b cA cB) ?_ ?_ ?_ ?_ ?_
+    fuel a b cA cB 0 0 ⟨hWA, hWB⟩ ?_ ?_ ?_
+  · exact fun _ _ _ _ h => ⟨h.1.1, h.2.1⟩
+  · rintro a b cA cB ⟨hWA, hWB⟩ hne hand a' hint
+    obtain ⟨T, _, _, hint', hmu, _⟩ := clipA hb hWA hWB hne hand
+    rw [hint'] at hint
+    cases hint
+    exact ⟨⟨W_bitCode hb _, hWB⟩, hmu⟩
+  · rintro a b cA cB ⟨hWA, hWB⟩ hF hne hand a' hint ho
+    exact freshB_clipA hb hWA hWB (hF ho) hne hand hint
+  · rintro a b cB ⟨hWA, hWB⟩ hne b' hint
+    obtain ⟨T, _, _, hint', hmu, _⟩ := clipB hb hWA hWB hne (Nat.zero_and cB)
+    rw [hint'] at hint
+    cases hint
+    refine ⟨⟨hWA, W_bitCode hb _⟩, ?_⟩
+    rw [Nat.zero_or, Nat.zero_or] at hmu
+    exact hmu
+  · rintro ho a b cB ⟨hWA, hWB⟩ hF hne hbc
+    exact intersect_boundary_end hWA hWB (hF ho) hne hbc hb
+  · intro _ ho
+    obtain ⟨h1, h2⟩ := hopen ho
+    rw [h1, h2]
+    exact freshB_start hb a b
+  · have := bitCount_or_le cA hWA.1 cB hWB.1
+    omega
+  · omega
 
 end Orb.Clip
